@@ -147,6 +147,14 @@ def sharing_shapes():
         out.append(("unread-elem-%d" % i, ("index", ("arr", [b, N(1)]), N(1))))
         out.append(("unread-field-%d" % i, IDX(("obj", [F("a", b), F("b", N(1))]), "b")))
         out.append(("hidden-field-manifest-%d" % i, ("obj", [F("a", b, "::"), F("b", N(1))])))
+        # a field removed with std.objectRemoveKey can no longer be read: looking its name up, redefining it or extending it
+        # must not run it
+        rm = prog.STD("objectRemoveKey", ("obj", [F("a", b), F("b", N(1))]), S("a"))
+        out.append(("removed-field-get-%d" % i, prog.STD("get", rm, S("a"), N(2))))
+        out.append(("removed-field-has-%d" % i, ("arr", [prog.STD("objectHasAll", rm, S("a")), ("bin", "in", S("a"), rm), rm])))
+        out.append(("removed-field-redefined-%d" % i, ("objext", rm, ("obj", [F("a", N(3))]))))
+        out.append(("removed-field-plus-%d" % i, ("objext", rm, ("obj", [F("a", ("arr", [N(3)]), plus=True)]))))
+        out.append(("removed-field-under-layer-%d" % i, IDX(("bin", "+", ("obj", [F("a", N(5))]), rm), "a")))
         out.append(("overridden-default-%d" % i, ("apply", ("fn", [("a", b)], V("a")), [N(1)], [], False)))
         out.append(("overridden-field-%d" % i, IDX(("bin", "+", ("obj", [F("a", b)]), ("obj", [F("a", N(1))])), "a")))
         out.append(("and-shortcircuit-%d" % i, ("bin", "&&", ("lit", "false"), b)))
